@@ -496,10 +496,12 @@ func loadsCmd(args []string) error {
 		parallel(len(jobs), func(i int) {
 			j := jobs[i]
 			src := obs.NewSource(j.it.Data, j.cut, failOf(j.fault), j.s).WithShape(j.shape)
+			// the caller reads the returned stream in pieces of its own choosing
+			src.DrainBuf = []int{0, 1, 7, 512, 4096, 4097}[i%6]
 			o := obs.Run(j.loader, src, true, false)
 			sink.put(map[string]interface{}{
 				"item": j.it.Name, "loader": j.loader, "n": len(j.it.Data), "cut": j.cut, "fault": j.fault,
-				"sched": j.s.Name, "shape": j.shape, "ok": o.OK, "panic": o.Panic != "", "stream_nil": o.StreamNil,
+				"sched": j.s.Name, "shape": j.shape, "drain_buf": src.DrainBuf, "ok": o.OK, "panic": o.Panic != "", "stream_nil": o.StreamNil,
 				"pulled": o.Pulled, "replay_len": o.ReplayLen, "prefix": o.Prefix, "final": o.FinalErr,
 			})
 		})
